@@ -122,3 +122,34 @@ Definition corr_nt_flat (d : nat) pts props rho0 (ops : list (bool * gmat)) (spe
 (* the parsed steps alone: used for the exhaustive check of the specification space *)
 Definition parse_flat (s : tspec) (max_step : Z) (dt start : float) : list Z :=
   match parse_times s max_step dt start with None => [(-1)%Z] | Some l => Z.of_nat (length l) :: l end.
+
+(* ---- TEMPO / PT-TEMPO path sums (C01, C02, C04, C05, C06) ---------------------------- *)
+From OQ Require Import Model.Schedule Model.PathSum.
+Definition mdagger (m : gmat) : gmat := map (map gconj) (@mtranspose GK m).
+Fixpoint lookupZ (k : Z) (t : list (Z * gmat)) : option gmat :=
+  match t with [] => None | (z, m) :: r => if Z.eqb z k then Some m else lookupZ k r end.
+
+(* which = true : TEMPO's row schedule ; false : PT-TEMPO's column schedule (N steps) *)
+Definition backend_coef (which : bool) (N : nat) (dkmax : option nat) (rect : bool)
+    (table : list (Z * gmat)) (kp k : nat) : option gmat :=
+  let key := if which then tempo_key dkmax rect kp k
+             else pt_key N (match dkmax with Some m => m | None => N end) rect kp k in
+  match key with
+  | None => None
+  | Some z => (* a rectangle of width dt (key -1) is the square at distance dkmax *)
+    lookupZ (match dkmax with Some m => if Z.eqb z (-1) then Z.of_nat m else z | None => z end) table
+  end.
+
+Definition pathsum_flat (which : bool) (d : nat) (table : list (Z * gmat)) (dkmax : option nat) (rect : bool)
+    (u : gmat) (props : list (gmat * gmat)) (rho0 : list G) (n N : nat) : list Z :=
+  let d2 := (d * d)%nat in
+  let uin := @left_right_super GK (mdagger u) u in
+  let uout := @left_right_super GK u (mdagger u) in
+  let i0 := match lookupZ 0 table with Some m => m | None => [] end in
+  flat_map flatG
+    (@states GK d2 (fun j => nth j (nth j i0 []) g0) (backend_coef which N dkmax rect table)
+             uin uout (fun k => nth k props ([], [])) rho0 n).
+
+Definition requests_flat (dkmax : option nat) (rect : bool) (n : nat) : list Z :=
+  tempo_requests dkmax n ++ [999%Z] ++
+  pt_requests n (match dkmax with Some m => m | None => n end) rect.
